@@ -25,7 +25,6 @@ import warnings
 
 from hypothesis import strategies as st
 
-import pywbem
 from pywbem import (CIMInstance, CIMInstanceName, CIMClass, CIMProperty,
                     CIMDateTime)
 from pywbem import _cim_obj
@@ -82,9 +81,11 @@ ASSUMPTIONS = [
     "array-ness); embedded objects are instances (the compiler documents "
     "that embedded classes are not supported); class-level default values "
     "of embedded-object properties are not generated",
-    "reference values are instance paths with string/integer/boolean keys "
-    "without control characters and with plain host names, i.e. paths for "
-    "which the WBEM URI round trip (C07) is not in question",
+    "reference values are instance paths (the DSP0004 objectHandle of a "
+    "reference initializer cannot denote a class path) with string/integer/"
+    "boolean keys, without control characters or '=' in string keys and "
+    "with plain host names, i.e. paths for which the WBEM URI round trip "
+    "(C07) is not in question",
     "names are compared case-insensitively plus, for class/qualifier "
     "declaration elements, by exact spelling; instance property names only "
     "case-insensitively",
@@ -97,8 +98,49 @@ ASSUMPTIONS = [
     "process with a MOFCompiler built the regular way",
 ]
 
-# Filled from mutation runs, see the end of the module
-SENSITIVITY = []
+# Mutations of pywbem applied one at a time in a scratch worktree (on top of
+# the proposed C08 fixes, where the quick tier is silent) -> signatures the
+# quick tier then reported (seed 1).
+SENSITIVITY = [
+    "_mof_escaped(): backslash not escaped -> mofstr/lexer-rejects-literal, "
+    "*/value:string:changed, */compile-rejected:MOFParseError:Illegal-"
+    "character-",
+    "_mof_escaped(): backslash escaped last instead of first (double "
+    "escaping) -> mofstr/value:string:changed, qualdecl|cls|inst/value:"
+    "string:changed",
+    "_mof_escaped(): double quote not escaped -> mofstr/lexer-rejects-"
+    "literal, */compile-rejected:MOFParseError:MOF-grammar-error",
+    "mofstr(): part_value = value[0:split_pos] (one character lost per "
+    "fold) -> mofstr/value:string:changed, */tomof:fold-splits-escape-"
+    "sequence, cls|inst/value:reference:changed",
+    "CIMProperty.tomof(): array size omitted ('[size]' -> '[]') -> "
+    "cls/property:array_size",
+    "CIMParameter.tomof(): '[]' omitted for arrays without size -> "
+    "cls/parameter:is_array",
+    "CIMClass.tomof(): superclass omitted -> cls/names:superclass",
+    "CIMQualifierDeclaration.tomof(): scope INDICATION never written -> "
+    "qualdecl/qualdecl:scopes, qualdecl/compile-rejected:MOFParseError:"
+    "MOF-grammar-error (empty scope list)",
+    "CIMQualifierDeclaration.tomof(): 'Restricted' never written -> "
+    "qualdecl/flavor:tosubclass",
+    "_value_tomof(): NULL array entries skipped -> */value:array-length, "
+    "*/compile-rejected:MOFParseError:MOF-grammar-error",
+    "_scalar_value_tomof(): datetime written with offset +000 -> "
+    "*/value:datetime:changed",
+    "compiler _build_flavors(): restricted/tosubclass swapped -> "
+    "qualdecl/flavor:tosubclass, cls/flavor:tosubclass",
+    "compiler p_stringValueList: parts joined with a blank -> "
+    "handwritten|qualdecl|cls|inst/value:string:changed",
+    "compiler _fixStringValue(): hexc <<= 3 instead of 4 -> handwritten|"
+    "mofstr|qualdecl|cls|inst/value:string:changed, */value:char16:changed",
+    "compiler t_decimalValue: sign dropped -> */value:integer:changed, "
+    "*/compile-raises:ValueError@_cim_types:__new__",
+    "not caught because equivalent for this property: mofstr() split "
+    "position avl_len instead of avl_len-1 (only the line length changes), "
+    "embedded value objs[-1] instead of objs[0] (one object), newlines of "
+    "embedded MOF replaced by blanks, sign of hex integer literals dropped "
+    "(tomof() writes decimal numbers only)",
+]
 
 MOF_KEYWORDS = frozenset("""any as association class disableoverride boolean
 char16 datetime enableoverride false flavor indication instance method null
@@ -432,11 +474,39 @@ def cls_case(draw):
                       'parameters': params, 'class_origin': None,
                       'propagated': None,
                       'qualifiers': _quals_from(draw, decls)})
+    maxline = draw(MAXLINE)
+    if draw(SMALL) == 3 and 'tightm' not in seen and \
+            not any(d['name'].lower() == 'longreals' for d in decls):
+        # deep indentation + long unsplittable values + small maxline
+        decls = decls + [{
+            'k': 'qualdecl', 'name': 'LongReals', 'type': 'real64',
+            'value': None, 'is_array': True, 'array_size': None,
+            'scopes': [('ANY', True)], 'overridable': None,
+            'tosubclass': None, 'toinstance': None, 'translatable': None}]
+        q = {'k': 'qual', 'name': 'LongReals', 'type': 'real64',
+             'value': draw(LONG_REALS), 'is_array': True, 'propagated': None,
+             'overridable': None, 'tosubclass': None, 'toinstance': None,
+             'translatable': None}
+        meths.append({'k': 'meth', 'name': 'TightM', 'return_type': 'uint32',
+                      'parameters': [{
+                          'k': 'param', 'name': draw(IDENT), 'type': 'uint8',
+                          'value': None, 'is_array': False,
+                          'array_size': None, 'reference_class': None,
+                          'embedded_object': None, 'qualifiers': [q]}],
+                      'class_origin': None, 'propagated': None,
+                      'qualifiers': []})
+        maxline = draw(st.sampled_from([40, 41, 42, 44]))
     cls = {'k': 'class', 'classname': draw(CLASSNAME),
            'superclass': draw(OPT_STUB),
            'properties': props, 'methods': meths,
            'qualifiers': _quals_from(draw, decls, 3)}
-    return {'decls': decls, 'cls': cls, 'maxline': draw(MAXLINE)}
+    return {'decls': decls, 'cls': cls, 'maxline': maxline}
+
+
+LONG_REALS = st.lists(st.sampled_from([
+    -2.2250738585072014e-308, -1.7976931348623157e+308,
+    -2.2473141425829687e-219, 1.5, -4.9406564584124654e-324,
+    -1.2345678901234567e+100]), min_size=1, max_size=3)
 
 
 MAXLINE = st.one_of(st.sampled_from([40, 41, 60, 80, 80, 100, 200]),
@@ -1520,6 +1590,16 @@ def _nonascii_digit_after_short_hex(parts):
     return False
 
 
+def _hex_escape_reaches_end(src):
+    """
+    True if the literal ends with \\x + fewer than 4 characters that are hex
+    digits or accepted by str.isdigit()
+    """
+    m = re.search(r'\\[xX](.{0,3})$', src, re.S)
+    return bool(m) and all(c in _HEX or c.isdigit() for c in m.group(1)) \
+        and not re.search(r'(?<!\\)(\\\\)+[xX].{0,3}$', src, re.S)
+
+
 def _decode_swallowing(src):
     """
     What a literal denotes for a decoder that takes every character with
@@ -1593,9 +1673,11 @@ def handwritten_oracle(ctx, ex):
         return v
 
     def exc_sig(exc):
-        # a literal that ends with a hex escape of < 4 digits
+        # a literal that ends with a hex escape of < 4 digits (possibly
+        # "continued" by characters that str.isdigit() accepts)
         if isinstance(exc, IndexError) and any(
-                re.search(r'\\[xX][0-9a-fA-F]{1,3}$', s) for s in srcs):
+                re.search(r'\\[xX][0-9a-fA-F]{1,3}$', s) or
+                _hex_escape_reaches_end(s) for s in srcs):
             return 'compiler:short-hex-escape-at-end-of-literal-raises-' \
                 'IndexError'
         if isinstance(exc, ValueError) and \
@@ -1611,18 +1693,27 @@ def handwritten_oracle(ctx, ex):
         got = fetch(conn)
         if got == denoted:
             return []
-        if isinstance(got, str) and "\\'" in ''.join(srcs) and \
-                got.replace("'", '') == denoted.replace("'", '') and \
-                got.count("'") < denoted.count("'"):
-            sig = 'compiler:escaped-apostrophe-dropped'
-        elif not isinstance(got, str):
-            sig = 'value:wrong-shape'
-        elif _nonascii_digit_after_short_hex(parts) and \
-                got == ''.join(_decode_swallowing(x) or '' for x in srcs):
-            sig = 'compiler:hex-escape-swallows-non-ascii-digit'
-        else:
-            sig = 'value:string:changed'
-        return [(sig, 'denotes %r, compiled %r' % (denoted, got))]
+        detail = 'denotes %r, compiled %r' % (denoted, got)
+        if not isinstance(got, str):
+            return [('value:wrong-shape', detail)]
+        apos = "\\'" in ''.join(srcs)
+
+        def less_apostrophes(x, y):
+            return apos and x.replace("'", '') == y.replace("'", '') and \
+                x.count("'") < y.count("'")
+        swallowed = None
+        if _nonascii_digit_after_short_hex(parts):
+            dec = [_decode_swallowing(x) for x in srcs]
+            if None not in dec:
+                swallowed = ''.join(dec)
+        if less_apostrophes(got, denoted):
+            return [('compiler:escaped-apostrophe-dropped', detail)]
+        if swallowed is not None and got == swallowed:
+            return [('compiler:hex-escape-swallows-non-ascii-digit', detail)]
+        if swallowed is not None and less_apostrophes(got, swallowed):
+            return [('compiler:escaped-apostrophe-dropped', detail),
+                    ('compiler:hex-escape-swallows-non-ascii-digit', detail)]
+        return [('value:string:changed', detail)]
     roundtrip(ctx, text, 'hand-written MOF', evaluate, guard=False,
               exc_sig=exc_sig)
     cl = set(stats)
@@ -1683,9 +1774,9 @@ def inst_strategy():
 
 SUBCHECKS = [
     Sub('mofstr', strategy=mofstr_strategy, oracle=mofstr_oracle,
-        quick=(8, 2500), thorough=(16, 60000), case_timeout=10),
+        quick=(16, 1250), thorough=(16, 60000), case_timeout=10),
     Sub('handwritten', strategy=handwritten_strategy,
-        oracle=handwritten_oracle, quick=(8, 500), thorough=(16, 20000),
+        oracle=handwritten_oracle, quick=(16, 250), thorough=(16, 20000),
         case_timeout=10),
     Sub('qualdecl', strategy=qualdecl_strategy, oracle=qualdecl_oracle,
         quick=(16, 700), thorough=(16, 12000), case_timeout=10),
